@@ -334,6 +334,12 @@ inline void workerLoop(Harness &h, const DriverArgs &a, int w, int W, uint64_t s
   FILE *out = fdopen(fd, "w");
   pinToCpu(w % 16);
   {
+    // Whatever code under test does behind the stream seam must not reach the harness's own
+    // descriptors: real stdin reads end of file, real stdout goes nowhere (results travel on `fd`).
+    int nul = ::open("/dev/null", O_RDWR);
+    if (nul >= 0) { dup2(nul, 0); dup2(nul, 1); if (nul > 2) ::close(nul); }
+  }
+  {
     // Safety net: code under test that loops while allocating (hexsim's loader on a malformed file
     // does) ends in bad_alloc after 6 GB instead of taking the machine down.
     struct rlimit rl; rl.rlim_cur = rl.rlim_max = 6ull << 30;
